@@ -47,6 +47,7 @@ def required_cells(tier):
               "touching-or-single-hit", "plane-coplanar", "plane-cutting", "plane-cutting-through-vertex", "plane-missing",
               "plane-tangent-vertex", "plane-tangent-edge", "plane-tangent-face"):
         req["pos:" + s] = 10 if q else 100
+    req["helper:longest-segment"] = 100 if q else 3000
     return req
 
 
@@ -55,11 +56,38 @@ def cases(rng, budget, widx, nworkers, tier):
     while True:
         ka, kb = PAIRS[i % len(PAIRS)]
         i += 1
+        if i % 23 == 0:
+            # exported helper: "the longest segment between the points" of a collinear point list
+            p, d = gen.rpt(rng), gen.rdir(rng)
+            ts = rng.sample([gen.F(x, 2) for x in range(-6, 7)], rng.randint(2, 6))
+            yield {"helper": "longest-segment", "pts": [K.add(p, K.mul(d, t)) for t in ts], "label": "helper"}
+            continue
         (a, b), label = gen.gen_pair(rng, ka, kb, small=rng.random() < 0.5)
         yield {"a": a, "b": b, "label": label, "ls": rng.getrandbits(30)}
 
 
+def _judge_helper(case):
+    G = load()
+    mu = core.Multi()
+    mu.cell("helper:longest-segment", "helper:%d-points" % len(case["pts"]))
+    pts = [G.Point(*[float(c) for c in q]) for q in case["pts"]]
+    res, exc, imp = M.call(G.get_segment_from_point_list, pts)
+    lo, hi = min(case["pts"]), max(case["pts"])      # extremes along the carrier = lexicographic extremes of collinear points
+    if exc is not None:
+        mu.fail("helper:longest-segment:raises-" + M.classify_exc(exc), "get_segment_from_point_list(collinear points) raised %r" % exc)
+    else:
+        if imp:
+            mu.fail("helper:longest-segment:arguments-modified", imp)
+        from ..desc import lower, same_set
+        same, why = same_set(lower(res), ("S", lo, hi))
+        if not same:
+            mu.fail("helper:longest-segment:wrong", "get_segment_from_point_list returned %s, longest segment is %s" % (C.show_short(lower(res)), C.show_short(("S", lo, hi))))
+    return mu.result()
+
+
 def judge(case):
+    if case.get("helper"):
+        return _judge_helper(case)
     G = load()
     a, b = case["a"], case["b"]
     _inner.new_case()
@@ -119,4 +147,7 @@ def worker_report():
     return d
 
 
-describe = C.describe_pair
+def describe(case):
+    if case.get("helper"):
+        return {"helper": case["helper"], "points": [C.show_short(q) for q in case["pts"]]}
+    return C.describe_pair(case)
